@@ -219,7 +219,10 @@ def fPow (F : Libm) (x y : PyFloat) : Except HostExc (Option PyFloat) :=
   | .fin x, .fin y =>
       if x = 0 then (if y < 0 then .error .zeroDivision else .ok (some (.fin 0)))
       else if x < 0 then
-        if !isIntegral y then .ok none                                  -- negative ** non-integer: complex
+        if !isIntegral y then                                           -- negative ** non-integer: complex pow,
+          match F.powPos (-x) y with                                    -- whose modulus |x|**y may overflow:
+          | .inf _ => .error .overflow                                  -- OverflowError("complex exponentiation")
+          | _ => .ok none
         else match powPosE F (-x) y with
           | .ok r => .ok (some (if isOddInt y then r.neg else r))
           | .error e => .error e
